@@ -364,6 +364,35 @@ def run_case(c, ns):
                 except Exception as e:
                     out.setdefault("nonbytes", []).append(type(e).__name__)
             return out
+        if op == "eq_interleaved":
+            # packets of one class parsed one after the other and all kept alive; then every input is parsed once more: each
+            # earlier packet must still equal the fresh parse of the bytes it came from (and must not have changed meanwhile)
+            raws = []
+            for v in c["values"]:
+                try:
+                    raws.append(build(v, ns).pack())
+                except Exception:
+                    pass
+            kept, shots = [], []
+            for r in raws:
+                try:
+                    p = cls.unpack(r)
+                except Exception:
+                    continue
+                kept.append((r, p))
+                shots.append(json.dumps(canon(p), sort_keys=True))
+            bad = []
+            for k, (r, p) in enumerate(kept):
+                try:
+                    q = cls.unpack(r)
+                    eq, ne, rev = bool(p == q), bool(p != q), bool(q == p)
+                except Exception as e:
+                    bad.append([k, r.hex(), "EXC:" + type(e).__name__])
+                    continue
+                changed = json.dumps(canon(p), sort_keys=True) != shots[k]
+                if not eq or ne or not rev or changed:
+                    bad.append([k, r.hex(), dict(eq=eq, ne=ne, eq_rev=rev, earlier_packet_changed=changed)])
+            return {"ok": {"parsed": len(kept), "inputs": [r.hex() for r, _ in kept], "bad": bad[:3]}}
         if op == "eq_from_value":
             try:
                 raw0 = build(c["value"], ns).pack()
